@@ -2,35 +2,14 @@
    the sorted map "obfuscated class name -> representation of the LAST block with that name", where the
    representation is a function of the block's entries (Spec.v) and of the FINAL string table. *)
 From Coq Require Import Lia Sorted.
-From PG Require Import Base Mapping Spec CacheWriter CacheReader CacheStructDefs BinSearchProofs LexOrder
+From PG Require Import Base Mapping Spec CacheWriter CacheReader CacheStructDefs Domain BinSearchProofs LexOrder
   StringTableProofs MapperProofs BtLemmas.
 
 (* ------------------------------------------------------------------ *)
 (* the domain                                                           *)
 (* ------------------------------------------------------------------ *)
-Definition str_ok (s : list N) : bool := negb (is_empty s) && utf8_valid s.
-Definition num_ok (n : N) : bool := n <? MAX32.
-Definition lm_ok (lm : option line_mapping) : bool :=
-  match lm with
-  | None => true
-  | Some l => num_ok (lm_start l) && num_ok (lm_end l) && (0 <? lm_end l) &&
-              (match lm_os l with Some x => num_ok x | None => true end) &&
-              (match lm_oe l with Some x => num_ok x | None => true end)
-  end.
-Definition rec_ok (r : record) : bool :=
-  match r with
-  | RHeader k v => if str_eqb k source_file then match v with Some f => str_ok f | None => true end else true
-  | RClass o b => str_ok o && str_ok b
-  | RField _ _ _ => true
-  | RMethod _ orig obf args ocls lm =>
-      str_ok orig && str_ok obf && utf8_valid args && (match ocls with Some c => str_ok c | None => true end) &&
-      (match lm with None => true | Some l => num_ok (lm_start l) && num_ok (lm_end l) && (0 <? lm_end l) &&
-           (match lm_os l with Some x => num_ok x | None => true end) && (match lm_oe l with Some x => num_ok x | None => true end) end)
-  end.
-Definition dom32 (rs : list record) : bool := forallb rec_ok rs.
-Definition sizes_ok (rs : list record) : bool :=
-  let s := write_struct rs in
-  (lenN (cs_strings s) <? U32) && (lenN (cs_classes s) <? U32) && (lenN (cs_members s) <? U32) && (lenN (cs_byparams s) <? U32).
+(* str_ok, num_ok, lm_ok, rec_ok, dom32, sizes_ok: see Domain.v (definitions only, extracted for the
+   correspondence check) *)
 
 (* ------------------------------------------------------------------ *)
 (* the words stored for strings, as a function of the final table       *)
